@@ -178,8 +178,23 @@ def generate(r):
         elif act == "gc":
             lines.append("print('#gc');")
             expect.append("#gc")
+    # field and method names are strings too: a class of the first module uses its fields only through self, a
+    # module compiled later (after collections) reaches the same members by name
+    field = "f" + "".join(r.choice("abcxyz") for _ in range(r.randint(3, 9)))
+    method = "m" + "".join(r.choice("abcxyz") for _ in range(r.randint(3, 9)))
+    module_texts.append("export class Holder { init(v) { self.%s = v; self.other = 0; } %s() { self.%s + 1 } bump() { self.%s = self.%s + 10; self } }" % (
+        field, method, field, field, field))
+    value = r.randint(1, 90)
+    position = r.randint(header + 1, len(lines))
+    lines.insert(position, "let holder = strmod.Holder(%d);" % value)
+    expect_position = sum(1 for line in lines[:position] if line.startswith("print("))
+    tail = ["print('#gc');", "churn(30);", "print('#gc');", "import self.late;",
+            "print(late.field(holder), late.method(holder), late.field(holder.bump()), holder.%s);" % field]
+    lines += tail
+    expect += ["#gc", "#gc", "%d %d %d %d" % (value, value + 1, value + 10, value + 10)]
     files = {workloads.MAIN: "\n".join(lines) + "\n",
-             "/sim/strmod.lay": "\n".join(module_texts + ["export let loaded = true;"]) + "\n"}
+             "/sim/strmod.lay": "\n".join(module_texts + ["export let loaded = true;"]) + "\n",
+             "/sim/late.lay": "export fn field(o) { o.%s }\nexport fn method(o) { o.%s() }\n" % (field, method)}
     for path, t in file_texts:
         files[path] = t
     return {"name": "strings", "main": workloads.MAIN, "files": files, "lines": lines, "header": header}, expect
